@@ -22,7 +22,7 @@ from dimod import (BinaryQuadraticModel as BQM, QuadraticModel as QM, Constraine
                    BinaryPolynomial, SampleSet)
 
 from harness.common import lab, rat, run_driver
-from harness.props.energy_common import (LABELS, Recipe, q8, F, fl, poly_value, rats, labs, adj_tok, qmb_tokens, parse_qmb,
+from harness.props.energy_common import (LABELS, Recipe, q8, F, fl, poly_value, rats, labs, rows_tok, adj_tok, qmb_tokens, parse_qmb,
                                          qmb_canon, model_canon, domain, perm_of, exc_class, gen_bqm, gen_qm)
 from harness.props.c01 import Batch
 
@@ -716,6 +716,10 @@ def case_cqm_change(ctx, r, B):
             if poly_value(e0, old) != poly_value(e1, new):
                 ctx.fail('property', site, ic, f'{name}: value moved at {old}', repro=repro)
                 return
+    if whole:
+        exp_c = cqm_canon_real(nmod)
+        B.add(f'cqms2b {tok0}', '', site, ic, 'CQM.spin_to_binary vs model', detail=dict(script=R.lines[4:]),
+              on_mismatch=lambda g, exp_c=exp_c: g.startswith('ok ') and cqm_canon_tok(*g.split(' ')[1:4]) == exp_c)
     if not whole:
         exp_c = cqm_canon_real(nmod)
         B.add(line, '', site, ic, 'CQM::change_vartype vs model', detail=dict(script=R.lines[4:]),
@@ -868,34 +872,147 @@ def case_ising_qubo(ctx, r, B):
             B.add(f'quboToIsing {qtok} {rat(F(off))}', '', site, 'qubo -> ising', 'dict algorithm vs model', on_mismatch=same2)
 
 
-def case_sampleset(ctx, r):
+SS_HDR = (
+    'import dimod, copy\n'
+    'from concurrent.futures import Future\n'
+    'class Pending:\n'
+    '    """future-like object: reports not done until told otherwise; its result is delivered by the result hook"""\n'
+    '    def __init__(self, ss): self.ss = ss; self.flag = False\n'
+    '    def done(self): return self.flag\n')
+
+
+def case_sampleset(ctx, r, B):
+    """SampleSet.change_vartype: resolved and still-pending (from_future) sets, energy_offset, inplace True/False, other vectors"""
     n = r.choice([1, 2, 3, 4])
     labels = r.sample(LABELS, n)
     vt = r.choice(['SPIN', 'BINARY'])
-    other = 'BINARY' if vt == 'SPIN' else 'SPIN'
+    target = r.choice(['SPIN', 'BINARY', 'SPIN' if vt == 'BINARY' else 'BINARY'])
     k = r.randint(1, 4)
     rows = [[r.choice(domain(vt)) for _ in labels] for _ in range(k)]
     en = [q8(r) for _ in range(k)]
-    eo = r.choice([0.0, q8(r)])
+    occ = [r.randint(1, 5) for _ in range(k)]
+    foo = [q8(r) for _ in range(k)]
+    eo = r.choice([0.0, q8(r), q8(r), q8(r)])
     inplace = r.random() < .5
-    src = (f'import dimod\nss = dimod.SampleSet.from_samples(({rows!r}, {labels!r}), {vt!r}, energy={en!r})\n'
-           f'rows0 = [dict(s) for s in ss.samples()]\nen0 = list(ss.record.energy)\n'
-           f'n = ss.change_vartype({other!r}, energy_offset={eo!r}, inplace={inplace})\n')
+    mode = r.choice(['resolved', 'future', 'future', 'pending-object', 'pending-object'])
+    twice = r.random() < .25            # a second, opposite change stacked on the first
+    base = (f'base = dimod.SampleSet.from_samples(({rows!r}, {labels!r}), {vt!r}, energy={en!r}, num_occurrences={occ!r}, '
+            f'foo={foo!r}, info={{"k": [1, 2]}}, sort_labels=False)\n')
+    if mode == 'resolved':
+        mk = 'ss = copy.deepcopy(base)\n'
+        fin = ''
+    elif mode == 'future':
+        if not inplace:
+            inplace = True      # inplace=False copies, and copying a pending set waits for the future: single-threaded here
+        mk = 'fut = Future()\nss = dimod.SampleSet.from_future(fut)\n'
+        fin = 'fut.set_result(copy.deepcopy(base))\n'
+    else:
+        mk = 'p = Pending(copy.deepcopy(base))\nss = dimod.SampleSet.from_future(p, result_hook=lambda f: f.ss)\n'
+        fin = 'p.flag = True\n'
+    call = f'n = ss.change_vartype({target!r}, energy_offset={eo!r}, inplace={inplace})\n'
+    if twice:
+        call += f'n = n.change_vartype({vt!r}, energy_offset={-eo!r}, inplace={inplace})\n'
+    pend = '' if mode == 'resolved' else 'was_pending = not ss.done()\n'
+    src = SS_HDR + base + mk + pend + call + fin
     ns = {}
-    exec(src, ns)
-    nss = ns['n']
-    ctx.tick('SampleSet.change_vartype')
-    ctx.case(('SampleSet.change_vartype', src), nontrivial=True)
-    f = (lambda s: (s + 1) // 2) if other == 'BINARY' else (lambda x: 2 * x - 1)
-    ok = nss.vartype.name == other and len(nss) == k
-    if ok:
-        for i, row in enumerate(ns['rows0']):
-            got = dict(nss.samples()[i])
-            if got != {v: f(x) for v, x in row.items()} or F(nss.record.energy[i]) != F(ns['en0'][i]) + F(eo):
-                ok = False
-    if not ok:
-        ctx.fail('property', 'SampleSet.change_vartype', f'{vt}->{other}', 'rows/energies not converted value by value',
-                 repro=src + f'for i, row in enumerate(rows0):\n    assert dict(n.samples()[i]) == {{v: ({"(x + 1) // 2" if other == "BINARY" else "2 * x - 1"}) for v, x in row.items()}}\n    assert n.record.energy[i] == en0[i] + {eo!r}\n')
+    site = 'SampleSet.change_vartype' + ('' if mode == 'resolved' else '(pending)')
+    ic = f'{vt}->{target}' + ('->' + vt if twice else '') + ('' if eo == 0 else ', energy_offset') + (', inplace' if inplace else ', copy')
+    ctx.tick(site)
+    ctx.case((site, src), nontrivial=True, sample=dict(script=src) if mode != 'resolved' and eo and len(labels) == 2 else None)
+    final_vt = vt if twice else target
+    conv = (lambda x: x) if final_vt == vt else ((lambda s_: (s_ + 1) // 2) if final_vt == 'BINARY' else (lambda x: 2 * x - 1))
+    exp_rows = [[conv(x) for x in row] for row in rows]
+    exp_en = [F(e) + (0 if twice else F(eo)) for e in en]
+    check = (f'assert n.vartype.name == {final_vt!r}\n'
+             f'assert list(n.variables) == {labels!r}\n'
+             f'assert n.record.sample.tolist() == {exp_rows!r}, n.record.sample.tolist()\n'
+             f'assert [float(e) for e in n.record.energy] == {[float(e) for e in exp_en]!r}, list(n.record.energy)\n'
+             f'assert n.record.num_occurrences.tolist() == {occ!r} and [float(x) for x in n.record.foo] == {foo!r}\n'
+             f'assert n.info == {{"k": [1, 2]}}\n')
+    try:
+        exec(src, ns)
+        nss = ns['n']
+        if mode != 'resolved' and not ns['was_pending']:
+            ctx.tick('sampleset:not-pending')   # generator artefact guard
+        got_rows = nss.record.sample.tolist()
+        bad = None
+        if nss.vartype.name != final_vt:
+            bad = f'vartype {nss.vartype.name}'
+        elif list(nss.variables) != labels:
+            bad = f'variables {list(nss.variables)}'
+        elif got_rows != exp_rows:
+            bad = f'samples {got_rows} != {exp_rows}'
+        elif [F(e) for e in nss.record.energy] != exp_en:
+            bad = f'energies {[str(F(e)) for e in nss.record.energy]} != {[str(e) for e in exp_en]}'
+        elif nss.record.num_occurrences.tolist() != occ or [F(x) for x in nss.record.foo] != [F(x) for x in foo] or nss.info != {'k': [1, 2]}:
+            bad = 'another data vector or info changed'
+        elif not inplace and mode == 'resolved' and (ns['ss'].record.sample.tolist() != rows or ns['ss'].vartype.name != vt):
+            bad = 'inplace=False changed the receiver'
+    except Exception as e:  # noqa
+        bad = f'{type(e).__name__}: {e}'
+        got_rows = None
+    if bad:
+        ctx.fail('property', site, ic, bad, repro=src + check)
+        return
+    # (i) the model: direct call (resolved) / the same call applied by the hook (pending)
+    line = f'sscv {vt} {rows_tok(rows)} {rats(en)} {target} {rat(F(eo))}'
+    if not twice:
+        B.add(line, f'{target} {rows_tok(got_rows)} {rats(nss.record.energy)}', site, ic, 'SampleSet.change_vartype vs model', detail=dict(script=src))
+
+
+def case_from_dicts(ctx, r):
+    """BQM.from_ising / from_qubo (constructors) and to_ising / to_qubo incl. offsets, energies at every sample"""
+    n = r.choice([1, 2, 3, 4])
+    labels = r.sample(LABELS, n)
+    h = {l: q8(r) for l in labels if r.random() < .8}
+    J = {}
+    if n >= 2:
+        for _ in range(r.choice([0, 1, 2, 4])):
+            u, v = r.sample(labels, 2)
+            if (u, v) not in J:
+                J[(u, v)] = q8(r)     # (u, v) and (v, u) may both occur: their biases add up
+    off = q8(r)
+    hdr = 'import dimod, itertools\nfrom fractions import Fraction\nF = lambda x: Fraction(float(x))\n'
+    which = r.choice(['from_ising', 'from_qubo'])
+    site = 'BQM.' + which
+    ctx.tick(site)
+    ctx.case((site, repr(h), repr(J), off), nontrivial=True)
+    if which == 'from_ising':
+        m = BQM.from_ising(h, J, off)
+        src = hdr + f'h, J, off = {h!r}, {J!r}, {off!r}\nm = dimod.BQM.from_ising(h, J, off)\nh2, J2, off2 = m.to_ising()\nQ, qoff = m.to_qubo()\n'
+        h2, J2, off2 = m.to_ising()
+        Q, qoff = m.to_qubo()
+        for s in all_samples(labels, 'SPIN'):
+            e = F(off) + sum(F(b) * s[v] for v, b in h.items()) + sum(F(b) * s[u] * s[v] for (u, v), b in J.items())
+            x = {v: (a + 1) // 2 for v, a in s.items()}
+            e_m = F(m.energy(s)) if labels else F(m.offset)
+            e_i = F(off2) + sum(F(b) * s[v] for v, b in h2.items()) + sum(F(b) * s[u] * s[v] for (u, v), b in J2.items())
+            e_q = F(qoff) + sum(F(b) * x[u] * x[v] for (u, v), b in Q.items())
+            if not (e == e_m == e_i == e_q):
+                ctx.fail('property', site, 'energies of from_ising / to_ising / to_qubo', f'at {s}: definition {e}, model {e_m}, to_ising {e_i}, to_qubo {e_q}',
+                         repro=src + f's = {s!r}\nx = {x!r}\ne = F(off) + sum(F(b)*s[v] for v, b in h.items()) + sum(F(b)*s[u]*s[v] for (u, v), b in J.items())\n'
+                         'assert e == F(m.energy(s)) == F(off2) + sum(F(b)*s[v] for v, b in h2.items()) + sum(F(b)*s[u]*s[v] for (u, v), b in J2.items()) '
+                         '== F(qoff) + sum(F(b)*x[u]*x[v] for (u, v), b in Q.items())\n')
+                return
+    else:
+        Q = {(v, v): b for v, b in h.items()}
+        Q.update(J)
+        m = BQM.from_qubo(Q, off)
+        src = hdr + f'Q, off = {Q!r}, {off!r}\nm = dimod.BQM.from_qubo(Q, off)\nh2, J2, off2 = m.to_ising()\nQ2, qoff = m.to_qubo()\n'
+        h2, J2, off2 = m.to_ising()
+        Q2, qoff = m.to_qubo()
+        for x in all_samples(labels, 'BINARY'):
+            e = F(off) + sum(F(b) * x[u] * x[v] for (u, v), b in Q.items())
+            s = {v: 2 * a - 1 for v, a in x.items()}
+            e_m = F(m.energy(x)) if labels else F(m.offset)
+            e_i = F(off2) + sum(F(b) * s[v] for v, b in h2.items()) + sum(F(b) * s[u] * s[v] for (u, v), b in J2.items())
+            e_q = F(qoff) + sum(F(b) * x[u] * x[v] for (u, v), b in Q2.items())
+            if not (e == e_m == e_i == e_q):
+                ctx.fail('property', site, 'energies of from_qubo / to_ising / to_qubo', f'at {x}: definition {e}, model {e_m}, to_ising {e_i}, to_qubo {e_q}',
+                         repro=src + f'x = {x!r}\ns = {s!r}\ne = F(off) + sum(F(b)*x[u]*x[v] for (u, v), b in Q.items())\n'
+                         'assert e == F(m.energy(x)) == F(off2) + sum(F(b)*s[v] for v, b in h2.items()) + sum(F(b)*s[u]*s[v] for (u, v), b in J2.items()) '
+                         '== F(qoff) + sum(F(b)*x[u]*x[v] for (u, v), b in Q2.items())\n')
+                return
 
 
 def run(ctx):
@@ -908,7 +1025,7 @@ def run(ctx):
                 'change_vartype, each compared with substitute-edit-substitute back; a case = one conversion or one history step; '
                 'non-trivial = the model has variables / the step went through a view of the other vartype or changed the state')
     for i in range(n):
-        kind = r.choice(['bqm', 'bqm', 'hist', 'hist', 'hist', 'qm', 'cqm', 'cqm', 'poly', 'dicts', 'ss'])
+        kind = r.choice(['bqm', 'bqm', 'hist', 'hist', 'hist', 'qm', 'cqm', 'cqm', 'poly', 'dicts', 'ss', 'ss', 'fromdicts'])
         ctx.tick('kind:' + kind)
         if kind == 'bqm':
             case_bqm_convert(ctx, r, B)
@@ -922,8 +1039,10 @@ def run(ctx):
             case_poly_convert(ctx, r, B)
         elif kind == 'dicts':
             case_ising_qubo(ctx, r, B)
+        elif kind == 'fromdicts':
+            case_from_dicts(ctx, r)
         else:
-            case_sampleset(ctx, r)
+            case_sampleset(ctx, r, B)
         if len([f for f in ctx.failures if f['kind'] == 'property']) >= 12:
             break
     flush_histories(ctx, B)
